@@ -65,7 +65,11 @@ def parse_callee(raw):
     c.selfty = c.trait = c.typath = None
     c.mgenerics = c.tgenerics = None
     path = raw.strip()
-    if path.startswith('<') and not path.startswith('<impl '):
+    qualified = False
+    if path.startswith('<'):
+        j0 = match_close(path, 0)
+        qualified = _find_top(path[1:j0], ' as ') >= 0 or not path.startswith('<impl ')
+    if qualified:
         j = match_close(path, 0)
         inner = path[1:j]
         rest = path[j + 1:]
@@ -577,7 +581,7 @@ class Executor:
         m = re.fullmatch(r'(-?\d+)_(\w+)', t)
         if m and m.group(2) in INT_BITS:
             return Int(m.group(2), int(m.group(1)))
-        m = re.fullmatch(r'(\w+)::(MAX|MIN)', t)
+        m = re.fullmatch(r'(?:[\w:]*::)?<impl (\w+)>::(MAX|MIN)', t) or re.fullmatch(r'(\w+)::(MAX|MIN)', t)
         if m and m.group(1) in INT_BITS:
             ty = m.group(1)
             bits = INT_BITS[ty]
@@ -631,6 +635,10 @@ class Executor:
                      n == c.method]
             if len(cands) == 1:
                 return self.call_function(cands[0], [])
+            sv = [v for n, v in self.prog.simple_consts.items() if n == path or n.endswith('::' + c.method) or
+                  n == c.method or path.endswith('::' + n)]
+            if len(set(sv)) == 1:
+                return self.const(sv[0])
             return Opaque('const', path)
         if c.method[:1].isupper():
             return Agg('struct', strip_generics(path), [], [])
@@ -657,7 +665,7 @@ class Executor:
                     if key >= len(cont):
                         raise Unsupported('field %d of %r' % (key, cur))
                 elif hasattr(cur, 'field_slot'):
-                    cont, key = cur.field_slot(self, pr[1])
+                    cont, key = cur.field_slot(self, pr[1], pr[2] if len(pr) > 2 else '')
                 else:
                     raise Unsupported('field .%d of %r in %s' % (pr[1], cur, frame.fn.name))
             elif k == 'downcast':
